@@ -6,6 +6,8 @@ import ast
 from sa.selftest import Mutant, Silent
 from sa.source import AnalysisError
 from sa.props._lib_e_machine import ObjV, Opaque, PyRaise, exc_name
+from sa.props._lib_e import http_interp
+from sa.props._lib_e_struct import c21_channel, c21_request, c21_transport_effects, structural
 from sa.props._lib_e_http import Harness, WireError, parse_responses, request_info
 
 PROPERTY = "C21"
@@ -14,20 +16,22 @@ Q = "twisted.web.http."
 QC = Q + "HTTPChannel"
 QR = Q + "Request"
 
-TECHNIQUE = "interpretation of HTTPChannel/Request source with model collaborators, compared with the property's oracle"
+TECHNIQUE = 'typestate dominance + who-may-write + call-graph closure on inlined view; guard valuations; bounded interpreted histories'
 EXPLANATION = (
-    "The source of HTTPChannel, Request, LineReceiver and TimeoutMixin is interpreted (AST interpreter, nothing imported or run from twisted) with "
-    "model transport / clock / network producer / Deferred objects, and driven through the property's histories: pipelined request sequences "
-    "delivered whole, split and byte by byte; applications that answer inside the hand-over, later, or in a mixed order; large pipelined input "
-    "while a partially written response is in flight (also with the transport having asked to pause); HTTP/1.0 and Connection: close; idle "
-    "timeout armed; notifyFinish Deferreds with callbacks that re-enter finish(); connection loss while handling. Decided by comparing what "
-    "becomes observable with the statement: exactly one request is handed to the application at a time and the next only after finish(), in "
-    "order; the bytes on the model transport parse (independent strict response reader) as the responses in request order; nothing that the "
-    "application did not write reaches the transport, and it is not closed, while a response is in progress; non-persistent connections close and "
-    "hand over nothing further; the paused network producer is resumed; the idle timeout is not pending while a request is handled; every "
-    "notifyFinish Deferred fires exactly once - None on finish, the reason on connection loss - also under re-entrant callbacks. Helper methods, "
-    "guard clauses, temporaries etc. are simply executed, so refactorings do not matter. Not decided: all interleavings of arbitrary length "
-    "(bounded scenarios), real transports' timing."
+    'Structural and finite-exhaustive rules run on a normalised view (private helpers inlined at their call sites, temporaries followed by partial evaluati'
+    'on, guard clauses read through the CFG) and abstain with a note when a shape is not recognised; the bounded layer (source interpreted by an AST interp'
+    'reter with model collaborators, compared with an oracle) covers every clause a second time and is the only evidence where stated. STRUCTURAL: busy fla'
+    'g and raw mode dominate the application call-out; the busy flag is written True only on the way to a hand-over and False only in __init__ or on the wa'
+    'y to the replay (typestate/, no function-name list); every HTTPChannel method that reaches transport.write/writeSequence/loseConnection/abortConnectio'
+    'n through the intra-class call graph is either the write API of the head-of-line Request, confined to contexts where no request is handled, or dominat'
+    "ed by 'not _handlingRequest' (callgraph/); notifications is only appended a fresh Deferred or reset, each firing loop fires callback(None) / errback(r"
+    'eason) and resets the list on every path, _disconnected and finished are set before the call-outs (notify/). FINITE-EXHAUSTIVE (every valuation of the'
+    ' guards, by partial evaluation of the inlined method): rawDataReceived buffers iff busy and writes nothing then; requestDone accepts only the head, re'
+    'plays the whole detached buffer with the flag cleared iff persistent, else closes, and wakes the producer; finish reaches _cleanup iff not finished an'
+    'd not disconnected; the idle timeout is suspended before the hand-over (valuation/). BOUNDED ONLY: order and integrity of the responses on the wire fo'
+    'r pipelined histories, re-entrant callbacks, connection loss points (pipeline/, notify-scenario/) - these are statements about interleavings of severa'
+    "l calls, for which the per-method structural rules give the ingredients but not the composition. Not decided: byte order under real transports' timing"
+    '.'
 )
 ASSUMPTIONS = [
     "the model transport delivers every byte it is given and never re-enters the channel",
@@ -228,7 +232,7 @@ def _notify(ctx, h):
         return distinct, after_finish, results(ds)
     o = h.run(scen)
     want = [[("callback", None)], [("callback", None)]]
-    ctx.check(o.kind == "ok" and o.value[0] and o.value[1] == want and o.value[2] == want, "notify/finish-fires-once-with-none", q + " | finish, then connection lost",
+    ctx.check(o.kind == "ok" and o.value[0] and o.value[1] == want and o.value[2] == want, "notify-scenario/finish-fires-once-with-none", q + " | finish, then connection lost",
               f"two notifyFinish Deferreds: distinct={o.value[0] if o.kind == 'ok' else '?'}, after finish {o.value[1] if o.kind == 'ok' else o.exc_name!r}, after a later connectionLost "
               f"{o.value[2] if o.kind == 'ok' else ''!r}; expected each fired exactly once with None")
     # connection loss fires each once with the reason; finish afterwards is refused and fires nothing
@@ -251,7 +255,7 @@ def _notify(ctx, h):
         h.call(ch, "connectionLost", reason)
         return same, fin, [len(x) for x in results(ds)], len(h.handed), h.wire()
     o = h.run(scen)
-    ctx.check(o.kind == "ok" and o.value[0] and o.value[1] == "RuntimeError" and o.value[2] == [1, 1] and o.value[3] == 1 and o.value[4] == b"", "notify/connection-lost-fires-once-with-reason",
+    ctx.check(o.kind == "ok" and o.value[0] and o.value[1] == "RuntimeError" and o.value[2] == [1, 1] and o.value[3] == 1 and o.value[4] == b"", "notify-scenario/connection-lost-fires-once-with-reason",
               q + " | connection lost while handling",
               f"fired-with-reason={o.value[0] if o.kind == 'ok' else '?'}, finish() afterwards -> {o.value[1] if o.kind == 'ok' else o.exc_name!r}, fire counts {o.value[2] if o.kind == 'ok' else ''!r}, "
               f"handed {o.value[3] if o.kind == 'ok' else ''!r}, wire {o.value[4] if o.kind == 'ok' else ''!r}; expected one errback(reason) each, RuntimeError from finish, nothing written or handed over")
@@ -279,7 +283,7 @@ def _notify(ctx, h):
             outer = exc_name(e.exc)
         return outer, seen, list(d.attrs["results"]), _uris(h)
     o = h.run(scen)
-    ctx.check(o.kind == "ok" and o.value[0] is None and o.value[1] == [None] and o.value[2] == [("callback", None)] and o.value[3] == [b"/a", b"/b"], "notify/reentrant-finish",
+    ctx.check(o.kind == "ok" and o.value[0] is None and o.value[1] == [None] and o.value[2] == [("callback", None)] and o.value[3] == [b"/a", b"/b"], "notify-scenario/reentrant-finish",
               q + " | callback calls finish() again",
               f"finish() -> {o.value[0] if o.kind == 'ok' else o.exc_name!r}, inner finish() -> {o.value[1] if o.kind == 'ok' else ''!r}, fired {o.value[2] if o.kind == 'ok' else ''!r}, "
               f"handed {o.value[3] if o.kind == 'ok' else ''!r}; expected the second finish() to be a warned no-op, one callback(None), and the next request handed over once")
@@ -308,7 +312,7 @@ def _notify(ctx, h):
             outer = exc_name(e.exc)
         return outer, seen, [len(x.attrs["results"]) for x in (d, d2)], h.wire()
     o = h.run(scen)
-    ctx.check(o.kind == "ok" and o.value == (None, ["RuntimeError"], [1, 1], b""), "notify/disconnected-before-errback", q + " | errback calls finish()",
+    ctx.check(o.kind == "ok" and o.value == (None, ["RuntimeError"], [1, 1], b""), "notify-scenario/disconnected-before-errback", q + " | errback calls finish()",
               f"connectionLost -> {o.value if o.kind == 'ok' else o.exc_name!r}; expected finish() inside the errback to raise RuntimeError, each Deferred fired once, nothing written")
     # requests still being parsed / queued are told about the loss as well
     def scen(h):
@@ -321,12 +325,26 @@ def _notify(ctx, h):
         h.call(ch, "connectionLost", reason)
         return list(d.attrs["results"]) == [("errback", reason)], [rq.attrs.get("_disconnected") for rq in ch.attrs["requests"]]
     o = h.run(scen)
-    ctx.check(o.kind == "ok" and o.value[0] and all(x is True for x in o.value[1]) and len(o.value[1]) >= 1, "notify/drain-on-connection-lost", QC + ".connectionLost",
+    ctx.check(o.kind == "ok" and o.value[0] and all(x is True for x in o.value[1]) and len(o.value[1]) >= 1, "notify-scenario/drain-on-connection-lost", QC + ".connectionLost",
               f"after connectionLost: head request notified={o.value[0] if o.kind == 'ok' else o.exc_name!r}, _disconnected of queued requests {o.value[1] if o.kind == 'ok' else ''!r}; "
               "every queued request must be told")
 
 
+RULE_KINDS = {
+    "typestate/": "structural",          # dominance / must-precede / who-may-write on the inlined view
+    "callgraph/": "structural",          # transport effects closed over the intra-class call graph
+    "notify/": "structural",             # who-may-write, take-then-fire, must-precede
+    "valuation/": "finite-exhaustive",   # every truth assignment of the guards of the (inlined) method, decided by partial evaluation
+    "pipeline/": "bounded",              # interpreted scenarios
+    "notify-scenario/": "bounded",
+}
+
+
 def check(ctx):
+    I = http_interp(ctx)
+    structural(ctx, "C21 one-request-at-a-time typestate", lambda s: c21_channel(s, I), "the bounded rules pipeline/*")
+    structural(ctx, "C21 transport effects over the call graph", lambda s: c21_transport_effects(s, I), "pipeline/no-channel-bytes-during-response (bounded)")
+    structural(ctx, "C21 notifyFinish take-then-fire", lambda s: c21_request(s, I), "the bounded rules notify-scenario/*")
     with ctx.section("pipelining"):
         _pipelining(ctx, Harness(ctx))
     with ctx.section("notifyFinish"):
